@@ -23,8 +23,54 @@ type sval struct {
 type strEnv struct {
 	hook  func(t Term) (sval, bool)
 	fail  string
-	panic string // run-time panic the expression would raise (index out of range)
-	bufs  map[string][]byte // byte buffers made on the path (by the key of their make term), as execStep left them
+	panic string            // run-time panic the expression would raise (index out of range)
+	bufs  map[string][]byte // byte buffers made on the path (by the key of their make term; local builders by bufKey), as execStep left them
+	loops map[string]sval   // values the executed loops left in their variables (by the key of the TLoop term)
+	ctx   *Ctx              // needed by execLoop for the post statement of counted loops
+	execd bool              // execStep has been applying the effects of the path: a local builder without writes is empty
+}
+
+// isTextBuilder: strings.Builder or bytes.Buffer.
+func isTextBuilder(t types.Type) bool {
+	if t == nil {
+		return false
+	}
+	if p, ok := t.(*types.Pointer); ok {
+		t = p.Elem()
+	}
+	s := t.String()
+	return s == "strings.Builder" || s == "bytes.Buffer"
+}
+
+// localBuilder: t denotes a builder local to the path (a variable, its zero literal or new(T)); returns its buffer key.
+func (e *strEnv) localBuilder(t Term) (string, bool) {
+	b := t
+	for {
+		switch x := b.(type) {
+		case TDeref:
+			b = x.X
+			continue
+		case TAddr:
+			b = x.X
+			continue
+		}
+		break
+	}
+	switch x := b.(type) {
+	case TVar:
+		if x.Obj != nil && isLocalVar(x.Obj) && isTextBuilder(x.Obj.Type()) {
+			return key(b), true
+		}
+	case TLit:
+		if isTextBuilder(x.Type) && x.Fresh != 0 {
+			return key(b), true
+		}
+	case TBuiltin:
+		if x.Name == "new" && isTextBuilder(x.Type) {
+			return key(b), true
+		}
+	}
+	return "", false
 }
 
 // isByteSlice: []byte.
@@ -74,11 +120,18 @@ func (e *strEnv) bufRef(t Term) (string, int, bool) {
 
 // execStep applies a store into / a copy into a byte buffer made on the path. Reports false for any other effect.
 func (e *strEnv) execStep(st Step) bool {
+	e.execd = true
 	switch {
 	case st.Kind == "store":
 		ix, ok := st.LHS.(TIndex)
 		if !ok {
-			_, isVar := st.LHS.(TVar)
+			tv, isVar := st.LHS.(TVar)
+			if isVar && tv.Obj != nil && isTextBuilder(tv.Obj.Type()) {
+				if e.bufs == nil {
+					e.bufs = map[string][]byte{}
+				}
+				e.bufs[key(tv)] = []byte{} // an empty builder
+			}
 			return isVar // zero-initialisation of an addressed local
 		}
 		k, off, ok := e.bufRef(ix.X)
@@ -107,8 +160,194 @@ func (e *strEnv) execStep(st Step) bool {
 		}
 		copy(e.bufs[k][off:], src.S)
 		return true
+	case st.Kind == "call" && st.Call != nil && st.Call.Fun != nil && st.Call.Recv != nil:
+		// writes into a builder local to the path
+		k, ok := e.localBuilder(st.Call.Recv)
+		if !ok {
+			return false
+		}
+		if e.bufs == nil {
+			e.bufs = map[string][]byte{}
+		}
+		switch st.Call.Fun.FullName() {
+		case "(*strings.Builder).WriteByte", "(*bytes.Buffer).WriteByte", "(*strings.Builder).WriteRune", "(*bytes.Buffer).WriteRune":
+			if len(st.Call.Args) != 1 {
+				return false
+			}
+			v, ok := e.val(st.Call.Args[0])
+			if !ok || v.K != 'i' {
+				return false
+			}
+			if strings.HasSuffix(st.Call.Fun.Name(), "Byte") {
+				e.bufs[k] = append(e.bufs[k], byte(v.I))
+			} else {
+				e.bufs[k] = append(e.bufs[k], string(rune(v.I))...)
+			}
+			return true
+		case "(*strings.Builder).WriteString", "(*bytes.Buffer).WriteString":
+			if len(st.Call.Args) != 1 {
+				return false
+			}
+			v, ok := e.val(st.Call.Args[0])
+			if !ok || v.K != 's' {
+				return false
+			}
+			e.bufs[k] = append(e.bufs[k], v.S...)
+			return true
+		case "(*strings.Builder).Grow", "(*bytes.Buffer).Grow":
+			return true
+		case "(*strings.Builder).Reset", "(*bytes.Buffer).Reset":
+			e.bufs[k] = []byte{}
+			return true
+		}
+	case st.Kind == "loop" && st.Loop != nil:
+		return e.execLoop(st.Loop, 64)
 	}
 	return false
+}
+
+// execLoop runs a loop whose effects are stores into / writes to buffers local to the path, concretely: per iteration the feasible
+// path is selected by folding its conditions, its effects are applied, the loop-carried variables updated. The values the loop
+// leaves in its variables are remembered for the terms after it.
+func (e *strEnv) execLoop(l *LoopRec, limit int) bool {
+	outer := e.hook
+	defer func() { e.hook = outer }()
+	state := map[types.Object]sval{}
+	for o, t := range l.Init {
+		sub := &strEnv{hook: outer, bufs: e.bufs, loops: e.loops}
+		if v, ok := sub.val(t); ok {
+			state[o] = v
+		}
+	}
+	var keyVal *sval
+	e.hook = func(t Term) (sval, bool) {
+		switch x := t.(type) {
+		case TLoop:
+			if x.ID == l.ID {
+				if v, ok := state[x.Obj]; ok {
+					return v, true
+				}
+			}
+		case TVar:
+			if l.Key != nil && x.Obj == l.Key && keyVal != nil {
+				return *keyVal, true
+			}
+		}
+		if outer != nil {
+			return outer(t)
+		}
+		return sval{}, false
+	}
+	count := int64(-1)
+	if l.Range != nil {
+		if l.Value != nil {
+			return false
+		}
+		if k, off, ok := e.bufRef(l.Over); ok {
+			count = int64(len(e.bufs[k]) - off)
+		} else if v, ok := e.val(l.Over); ok && v.K == 'i' {
+			count = v.I
+		} else {
+			return false
+		}
+	} else if l.For == nil || l.CondT == nil {
+		return false
+	}
+	for it := int64(0); ; it++ {
+		if it > int64(limit) {
+			return false
+		}
+		if count >= 0 {
+			if it >= count {
+				break
+			}
+			kv := sval{K: 'i', I: it}
+			keyVal = &kv
+		} else {
+			cv, ok := e.val(l.CondT)
+			if !ok || cv.K != 'b' || e.panic != "" {
+				return false
+			}
+			if !cv.B {
+				break
+			}
+		}
+		var sel *Path
+		for _, ip := range l.Iter {
+			if ip.Why != "" {
+				return false
+			}
+			feasible := true
+			for _, cd := range ip.Conds() {
+				cv, ok := e.val(cd.T)
+				if !ok || cv.K != 'b' {
+					return false
+				}
+				if cv.B != cd.Truth {
+					feasible = false
+					break
+				}
+			}
+			if feasible {
+				if sel != nil {
+					return false
+				}
+				sel = ip
+			}
+		}
+		if sel == nil || (sel.End != "fall" && sel.End != "continue" && sel.End != "break") {
+			return false
+		}
+		for _, st := range sel.Steps {
+			if st.Kind == "cond" {
+				continue
+			}
+			if !e.execStep(st) || e.panic != "" {
+				return false
+			}
+		}
+		next := map[types.Object]sval{}
+		for o := range state {
+			if t, ok := sel.Env[o]; ok {
+				v, ok := e.val(t)
+				if !ok {
+					return false
+				}
+				next[o] = v
+			} else {
+				next[o] = state[o]
+			}
+		}
+		state = next
+		if sel.End == "break" {
+			break
+		}
+		if count < 0 && l.Post != nil {
+			if e.ctx == nil {
+				return false
+			}
+			ints := map[types.Object]int64{}
+			for o, v := range state {
+				if v.K == 'i' {
+					ints[o] = v.I
+				}
+			}
+			sim := &loopSim{c: e.ctx, l: l, state: ints}
+			if !sim.post() {
+				return false
+			}
+			for o, v := range sim.state {
+				state[o] = sval{K: 'i', I: v}
+			}
+		}
+	}
+	if e.loops == nil {
+		e.loops = map[string]sval{}
+	}
+	for o, v := range state {
+		e.loops[key(TLoop{o, l.ID})] = v
+	}
+	return true
 }
 
 func (e *strEnv) bad(w string) (sval, bool) {
@@ -122,6 +361,21 @@ func (e *strEnv) val(t Term) (sval, bool) {
 	if e.hook != nil {
 		if v, ok := e.hook(t); ok {
 			return v, true
+		}
+	}
+	if lv, ok := t.(TLoop); ok && e.loops != nil {
+		if v, ok := e.loops[key(lv)]; ok {
+			return v, true
+		}
+	}
+	if call, ok := t.(TCall); ok && call.Fun != nil && call.Recv != nil && len(call.Args) == 0 && call.Fun.Name() == "String" && (e.bufs != nil || e.execd) {
+		if k, ok := e.localBuilder(call.Recv); ok {
+			if b, ok := e.bufs[k]; ok {
+				return sval{K: 's', S: string(b)}, true
+			}
+			if e.execd {
+				return sval{K: 's', S: ""}, true
+			}
 		}
 	}
 	switch x := t.(type) {
@@ -406,6 +660,14 @@ func (e *strEnv) val(t Term) (sval, bool) {
 			if isS(0) && isI(1) && args[1].I >= 0 && args[1].I <= 64 {
 				return sval{K: 's', S: strings.Repeat(args[0].S, int(args[1].I))}, true
 			}
+		case "strconv.FormatBool":
+			if len(args) == 1 && args[0].K == 'b' {
+				return sval{K: 's', S: strconv.FormatBool(args[0].B)}, true
+			}
+		case "strconv.Itoa":
+			if isI(0) {
+				return sval{K: 's', S: strconv.FormatInt(args[0].I, 10)}, true
+			}
 		case "strings.TrimPrefix":
 			if isS(0) && isS(1) {
 				return sval{K: 's', S: strings.TrimPrefix(args[0].S, args[1].S)}, true
@@ -550,7 +812,7 @@ func (c *Ctx) foldLoopMem(l *LoopRec, hook func(Term) (sval, bool), limit int, m
 				sel, selMem = ip, cur
 			}
 		}
-		if sel == nil || (sel.End != "fall" && sel.End != "continue") {
+		if sel == nil || (sel.End != "fall" && sel.End != "continue" && sel.End != "break") {
 			return nil, "no continuing iteration path"
 		}
 		if mem != nil && selMem != nil {
@@ -573,6 +835,9 @@ func (c *Ctx) foldLoopMem(l *LoopRec, hook func(Term) (sval, bool), limit int, m
 			}
 		}
 		state = next
+		if sel.End == "break" {
+			return state, "" // left by break: the post statement does not run
+		}
 		// post statement on integers
 		if l.Post != nil {
 			ints := map[types.Object]int64{}
